@@ -220,7 +220,9 @@ class EvolvableAlgorithm(ABC, metaclass=RegistryMeta):
         self.scores = []
         self.fitness = []
         self.steps = [0]
-        self.registry = MutationRegistry(hp_config)
+        # NOTE: Each individual needs its own copy of the configuration since the
+        # current value of every hyperparameter is cached in it during mutations
+        self.registry = MutationRegistry(copy.deepcopy(hp_config))
         self.training = True
 
     @property
